@@ -6,6 +6,7 @@ import (
 	"fmt"
 	"os"
 	"os/exec"
+	"runtime"
 	"runtime/debug"
 	"strconv"
 	"strings"
@@ -297,6 +298,7 @@ func init() {
 	// child: -child c16:<maxLen>:<start>:<end>  prints "P <idx>" progress and "V <idx> <msg>" lines.
 	childFuncs["c16"] = func(c *Ctx, arg string) {
 		debug.SetMaxStack(16 << 20)
+		runtime.GOMAXPROCS(1) // one P: what an earlier call left in a sync.Pool is what the next call finds (replays agree)
 		f := strings.Split(arg, ":")
 		maxLen, _ := strconv.Atoi(f[0])
 		start, _ := strconv.ParseInt(f[1], 10, 64)
